@@ -222,7 +222,7 @@ def build_lib(ctx, variant, flavour="plain"):
     return ctx.libs[key]
 
 
-def build_hx(ctx, variant, flavour="plain", extra_sources=(), extra_flags=(), name=None):
+def build_hx(ctx, variant, flavour="plain", extra_sources=(), extra_flags=(), name=None, wrap=None):
     key = (variant, flavour, name)
     if key in ctx.exes:
         return ctx.exes[key]
@@ -231,7 +231,7 @@ def build_hx(ctx, variant, flavour="plain", extra_sources=(), extra_flags=(), na
     fl = build_sodium.FLAVOUR_FLAGS[flavour]
     srcs = list(extra_sources) if name else hx_sources()
     cmd = (["gcc", "-w"] + fl + build_sodium.include_flags(os.path.dirname(lib)) + ["-I" + HARNESS] +
-           ["-DSODIUM_VERIF=1", "-DHX_VARIANT_" + variant.upper() + "=1"] + list(extra_flags) + srcs + [lib, "-lpthread"] + (WRAP_FLAGS if not name else []) + ["-o", exe])
+           ["-DSODIUM_VERIF=1", "-DHX_VARIANT_" + variant.upper() + "=1"] + list(extra_flags) + srcs + [lib, "-lpthread"] + (WRAP_FLAGS if (wrap if wrap is not None else not name) else []) + ["-o", exe])
     p = subprocess.run(cmd, capture_output=True, text=True)
     if p.returncode != 0:
         raise BrokenCheck("harness does not compile against the current tree: " + p.stderr[-2000:])
